@@ -185,6 +185,14 @@ def run(P: Program, R: Report, tier: str) -> None:
     from .memo import no_stale_memo
 
     no_stale_memo(P, R, "R06.13")
+    # ---- R06.14 the annotator maintains the attribute the queries read (key names threaded from the feature dictionary)
+    from .annot import keys_threaded
+
+    keys_threaded(P, R, "R06.14")
+    # ---- R06.15 (= R14.2) the keys the lookups are built for survive save / load
+    from .c14 import feature_dict_keys_agree
+
+    feature_dict_keys_agree(P, R, "R06.15")
 
 
 def move_order(P: Program, R: Report, ann, fams) -> None:
